@@ -8,7 +8,7 @@ object with every single-field mutation of the deep copy.
 """
 from __future__ import annotations
 import copy as _copy
-import atexit, itertools, os, pathlib, shutil, tempfile, traceback
+import atexit, itertools, os, pathlib, shutil, signal, tempfile, traceback
 
 import numpy
 
@@ -146,7 +146,15 @@ class Scratch:
         shutil.rmtree(self.dir, ignore_errors=True)
 
 
+def _on_sigterm(signum, frame):
+    raise SystemExit(143)       # unwinds through the `finally` below, so a terminated worker removes its scratch dir
+
+
 def run_shard(spec, ctx):
+    try:
+        signal.signal(signal.SIGTERM, _on_sigterm)
+    except ValueError:          # not in the main thread of this process
+        pass
     sc = Scratch()
     try:
         if spec[0] == "hdf5":
